@@ -162,7 +162,7 @@ def search(chk, broken):
             if q in xs:
                 i = xs.index(q)
                 exp = rows[i][1]
-                if abs(got - exp) > 1e-9 * abs(exp):
+                if abs(got - exp) > 1e-9 * max(abs(exp), max(abs(c) for _, c in rows)):
                     chk.failures.append(Failure('node-value', f'{name}: cd({q}) = {got}, table says {exp}',
                                                 {'op': 'cd-node', 'table': name, 'mach': q, 'observed': got, 'expected': exp}))
                 continue
@@ -179,7 +179,10 @@ def search(chk, broken):
                 if j + 2 <= n - 1:
                     cands.append(parabola(rows[j], rows[j + 1], rows[j + 2]))
             vals = [float(f(q)) for f in cands]
-            if not any(abs(got - v) <= 1e-9 * max(abs(v), 1e-3) for v in vals):
+            # tolerance relative to the size of the table's coefficients: a*M^2 + b*M + c cancels to near zero for some custom tables,
+            # and the float evaluation then carries an ABSOLUTE error of a few ulps of the (much larger) terms
+            cd_scale = max(abs(c) for _, c in rows)
+            if not any(abs(got - v) <= 1e-9 * max(abs(v), cd_scale, 1e-3) for v in vals):
                 chk.failures.append(Failure('not-on-parabola', f'{name}: cd({q!r}) = {got} is on none of the parabolas through consecutive points '
                                                                f'that include both neighbours ({vals})',
                                             {'op': 'cd-between', 'table': name, 'mach': q, 'observed': got, 'candidates': vals}))
